@@ -129,3 +129,44 @@ fn k_sync_zero_after_rewind_or_release() {
   kani::assume(j < n2 as usize);
   assert!(unsafe { a.get_bytes(z.offset(), z.capacity()) }[j] == 0);
 }
+
+/// sync flavour, one thread.  bounded(capacity 64, maximum_retries 1: a dirtied 24-byte block and a live 8-byte neighbour, fresh
+/// space exhausted, the block released below the top, then a symbolic request of 0..=20 bytes that can only come from the free
+/// list): the recycled range is zero, inside the arena and disjoint from the neighbour, which keeps its bytes; C08/C01
+fn sync_release_reuse(fl: Freelist) {
+  let a = Options::new().with_capacity(64).with_freelist(fl).with_maximum_retries(1).alloc::<Arena>().unwrap();
+  a.set_minimum_segment_size(1);
+  let n3: u32 = kani::any();
+  kani::assume(n3 <= 20);
+  let Ok(mut x) = a.alloc_bytes(24) else { return; };
+  unsafe { core::ptr::write_bytes(x.as_mut_ptr(), 0xAA, 24) };
+  let Ok(mut y) = a.alloc_bytes(8) else { return; };
+  unsafe { core::ptr::write_bytes(y.as_mut_ptr(), 0xBB, 8) };
+  let (yo, yc) = (y.offset(), y.capacity());
+  let rem = a.remaining() as u32;
+  if rem > 0 { let Ok(mut f) = a.alloc_bytes(rem) else { return; }; unsafe { f.detach(); } }
+  drop(x);
+  match a.alloc_bytes(n3) {
+    Ok(z) => {
+      assert!(z.capacity() == n3 as usize);
+      if n3 > 0 {
+        assert!(z.offset() >= a.data_offset() && z.offset() + z.capacity() <= a.allocated());
+        assert!(z.offset() + z.capacity() <= yo || yo + yc <= z.offset());
+        let bytes = unsafe { a.get_bytes(z.offset(), z.capacity()) };
+        let i: usize = kani::any();
+        kani::assume(i < bytes.len());
+        assert!(bytes[i] == 0);
+      }
+    }
+    Err(_) => {}
+  }
+  let j: usize = kani::any();
+  kani::assume(j < yc);
+  assert!(unsafe { a.get_bytes(yo, yc) }[j] == 0xBB);
+}
+#[kani::proof]
+#[kani::unwind(4)]
+fn k_sync_release_reuse_pessimistic() { sync_release_reuse(Freelist::Pessimistic) }
+#[kani::proof]
+#[kani::unwind(4)]
+fn k_sync_release_reuse_optimistic() { sync_release_reuse(Freelist::Optimistic) }
